@@ -245,7 +245,17 @@ fn run_case<'a>(ctx: &'a Ctx, case: u64, acc: &'a mut Acc) -> CaseFut<'a> {
                                 acked[i] = true;
                             }
                         }
-                        _ => {}
+                        Some(Err(e)) => {
+                            let e = e.to_string();
+                            acc.count("stream_mutations_refused", 1);
+                            if e.contains("malformed") || e.contains("corrupt") || e.contains("constraint") {
+                                acc.violation(
+                                    "C16/concurrent-mutation-fails-with-a-storage-engine-error/mutation-stream",
+                                    json!({"error": e.chars().take(200).collect::<String>(), "mutations": chosen.iter().map(|m| format!("{:?}", m)).collect::<Vec<_>>()}),
+                                );
+                            }
+                        }
+                        None => {}
                     }
                 }
                 drop(tx);
@@ -253,11 +263,19 @@ fn run_case<'a>(ctx: &'a Ctx, case: u64, acc: &'a mut Acc) -> CaseFut<'a> {
                 let futs = chosen.iter().map(|m| {
                     let (text, prm) = m.request(&id);
                     let peer = &peer;
-                    async move { peer.mutate(&text, Some(prm)).await.is_ok() }
+                    async move { peer.mutate(&text, Some(prm)).await }
                 });
                 let res = futures::future::join_all(futs).await;
                 for (i, r) in res.into_iter().enumerate() {
-                    acked[i] = r;
+                    if let Err(e) = &r {
+                        if e.contains("malformed") || e.contains("corrupt") || e.contains("constraint") {
+                            acc.violation(
+                                "C16/concurrent-mutation-fails-with-a-storage-engine-error/concurrent-callers",
+                                json!({"error": e.chars().take(200).collect::<String>(), "mutations": chosen.iter().map(|m| format!("{:?}", m)).collect::<Vec<_>>()}),
+                            );
+                        }
+                    }
+                    acked[i] = r.is_ok();
                 }
             }
             acc.count("groups", 1);
@@ -276,6 +294,21 @@ fn run_case<'a>(ctx: &'a Ctx, case: u64, acc: &'a mut Acc) -> CaseFut<'a> {
                     continue;
                 }
             };
+            // no mixed state: the stored row is one signed image (its signature covers every column, the date included)
+            {
+                let snap = peer.snapshot().await;
+                let raw = crate::util::unb64(&id);
+                if let Some(n) = snap.nodes.values().find(|n| n.id.as_slice() == raw.as_slice()) {
+                    acc.count("stored_rows_verified", 1);
+                    if n.verify().is_err() {
+                        acc.violation(
+                            if sequential { "C16/sequential-control/stored-row-does-not-verify" } else { "C16/mixed-state/stored-row-is-not-one-signed-image" },
+                            json!({"mutations": chosen.iter().map(|m| format!("{:?}", m)).collect::<Vec<_>>(), "row": crate::snapshot::node_json(n)}),
+                        );
+                        continue;
+                    }
+                }
+            }
             let acked_muts: Vec<&Mutn> = chosen
                 .iter()
                 .zip(acked.iter())
